@@ -202,7 +202,48 @@ func TestSnapshots(t *testing.T) {
 		nontrivial := false
 		var hist []any
 		for i := 1; i <= n; i++ {
-			origin := rapid.SampledFrom([]string{"local-update", "local-set", "remote-write", "reply", "notify", "remote-nonpersist", "peer-read"}).Draw(t, fmt.Sprintf("origin%d", i))
+			origin := rapid.SampledFrom([]string{"local-update", "local-set", "remote-write", "reply", "notify", "remote-nonpersist", "peer-read", "local-append-set"}).Draw(t, fmt.Sprintf("origin%d", i))
+			if origin == "local-append-set" {
+				// read-modify-write by the application: it obtains the data, appends an item to the list of ITS copy
+				// (Go's append writes into spare capacity of the array the copy shares with the store and with
+				// data sets handed out earlier - beyond their length, invisible to them) and hands the longer list
+				// back with SetData. What the stack then does with that list must not reach the earlier data sets.
+				cur := e.srv.DataCopy(f.Fn)
+				extra := listgen.Items(t, &f, 1, o, fmt.Sprintf("appended%d", i))
+				fresh := cur != nil && !reflect.ValueOf(cur).IsNil() && len(extra) == 1
+				if fresh {
+					nk, _ := gen.KeyOf(&f, extra[0])
+					for _, it := range refmodel.ItemsOf(&f, cur) {
+						if k, ok := gen.KeyOf(&f, it); ok && k == nk {
+							fresh = false
+						}
+					}
+				}
+				if fresh {
+					nd := reflect.New(f.DataType)
+					var list reflect.Value
+					for q := 0; q < nd.Elem().NumField(); q++ {
+						if nd.Elem().Field(q).Kind() == reflect.Slice {
+							list = nd.Elem().Field(q)
+							list.Set(reflect.Append(reflect.ValueOf(cur).Elem().Field(q), extra[0]))
+						}
+					}
+					world.Label(fmt.Sprintf("append-set/spare-capacity=%v", list.IsValid() && list.Cap() > list.Len()-1 && list.Len() > 1))
+					e.srv.SetData(f.Fn, nd.Interface())
+					e.w.Sync()
+					e.lstate = refmodel.CloneItems(refmodel.ItemsOf(&f, e.srv.DataCopy(f.Fn)))
+					e.checkSnaps(t, i, "local-append-set/full")
+					e.collectEventPayloads(i)
+					if !quiet && rapid.Bool().Draw(t, fmt.Sprintf("snap%d", i)) {
+						e.take("local-DataCopy", e.srv.DataCopy(f.Fn), i)
+					}
+					seq = append(seq, "local-append-set")
+					world.Label("origin/local-append-set")
+					hist = append(hist, map[string]any{"origin": origin, "appended": refmodel.Payload(&f, extra)})
+					continue
+				}
+				origin = "local-set"
+			}
 			if origin == "peer-read" && !e.subscribed && rapid.Bool().Draw(t, fmt.Sprintf("subscribe%d", i)) {
 				// from now on every change of the local data is encoded for a notification (data sets
 				// obtained before have never been encoded by the stack so far)
